@@ -116,6 +116,14 @@ pub(super) fn prefix(cfg: &ObsCfg, i: usize) -> packet::Nlri {
 }
 
 pub(super) fn nexthop(cfg: &ObsCfg, i: usize) -> bgp::Nexthop {
+    if cfg.v6 && i % 2 == 1 {
+        // the 32-byte global + link-local form (RFC 2545): same global address as the
+        // plain form would have, so a replacement can differ in the link-local half only
+        return bgp::Nexthop::V6LinkLocal(
+            Ipv6Addr::new(0x2001, 0xdb8, 0xffff, 0, 0, 0, 0, 1),
+            Ipv6Addr::new(0xfe80, 0, 0, 0, 0, 0, 0, 1 + i as u16),
+        );
+    }
     if cfg.v6 {
         bgp::Nexthop::V6(Ipv6Addr::new(
             0x2001,
